@@ -462,20 +462,40 @@ def r5(ctx):
     # the final informativeness decision of the phased branch: monomorphic site with a base -> informative; fewer than two bases -> not;
     # otherwise the verdict reached so far (multi-base allele, unassigned selected sample) stands
     dec = [s_ for s_ in walk_no_nested(loop) if isinstance(s_, ast.If) and 'monomorphic' in names_in(s_.test) and any(isinstance(a_, ast.Assign) and src(a_.targets[0]) == 'bad' for a_ in walk_no_nested(s_))]
-    if len(dec) == 1:
+    sloops_ = [l for l in walk_no_nested(loop) if isinstance(l, ast.For) and '.samples' in src(l.iter)]
+    if len(dec) == 1 and sloops_:
+        # the statements that turn what the genotype loops collected into the verdict: everything after the per-sample loop in its block
+        modx = ctx.ix.module(ALLELES)
+        par = modx.parent.get(sloops_[0])
+        blk = None
+        for fld in ('body', 'orelse', 'finalbody'):
+            b_ = getattr(par, fld, None)
+            if isinstance(b_, list) and any(x is sloops_[0] for x in b_):
+                blk = b_
+        region = blk[[i for i, x in enumerate(blk) if x is sloops_[0]][0] + 1:] if blk else [dec[0]]
         problems = []
-        for mono in (True, False):
-            for nb in (0, 1, 2):
-                for before in (True, False):
-                    at = lambda e, mono=mono, nb=nb: (nb if src(e) == 'len(bases_to_alleles)' else (mono if src(e) == 'monomorphic' else UNK))
-                    rs = explore([dec[0]], at, env0={'bad': before, 'used': nb > 0})     # `used`: a base was registered, i.e. the mapping is non-empty
-                    got = {r['consts'].get('bad', 'unknown') for r in rs}
-                    want = False if (mono and nb > 0) else (True if nb < 2 else before)
-                    if got != {want}:
-                        problems.append(((mono, nb, before), sorted(map(str, got)), want))
-        ctx.counters['abstract_cases'] += 12
-        ctx.emit('C18-R5', not problems, ALLELES, dec[0], 'informativeness decision over (monomorphic, number of bases, verdict so far): a site judged bad earlier stays bad unless it is monomorphic with a base' if not problems else
-                 f'informativeness decision differs at (monomorphic, bases, bad before)={problems[0][0]}: bad becomes {problems[0][1]}, expected {problems[0][2]}', key='informativeness-decision',
+        ncase = 0
+        for mono, nb, multi, sel, mism in itertools.product((True, False), (0, 1, 2), (True, False), (True, False), (True, False)):
+            facts = {'self.select_samples is not None': sel, 'len(samples_assigned) != len(self.select_samples)': mism, 'len(self.select_samples) != len(samples_assigned)': mism}
+            base_at = mk_atoms(facts)
+
+            def at(e, mono=mono, nb=nb, base_at=base_at):
+                t = src(e)
+                if t == 'len(bases_to_alleles)':
+                    return nb
+                if t == 'monomorphic':
+                    return mono
+                return base_at(e)
+            rs = explore(region, at, env0={'bad': multi, 'used': nb > 0})     # `used`: a base was registered, i.e. the mapping is non-empty
+            got = {r['consts'].get('bad', 'unknown') for r in rs if r['kind'] in ('fall', 'continue')}
+            want = False if (mono and nb > 0) else (True if nb < 2 else (multi or (sel and nb > 0 and mism)))
+            ncase += 1
+            if got != {want}:
+                problems.append(((mono, nb, multi, sel, mism), sorted(map(str, got)), want))
+        ctx.counters['abstract_cases'] += ncase
+        ctx.emit('C18-R5', not problems, ALLELES, dec[0], f'informativeness decision over {ncase} cases (monomorphic, number of bases, multi-base allele seen, selection active, selected sample unassigned): a site judged bad '
+                 'earlier stays bad unless it is monomorphic with a base' if not problems else
+                 f'informativeness decision differs at (monomorphic, bases, bad so far, selection, incomplete)={problems[0][0]}: bad becomes {problems[0][1]}, expected {problems[0][2]}', key='informativeness-decision',
                  what='fetchChromosome: the final informativeness decision overwrites an earlier "bad" verdict')
     # conversion filter
     conv = [s for s in walk_no_nested(loop) if isinstance(s, ast.If) and 'ignore_conversions' in src(s.test)]
@@ -582,9 +602,7 @@ def r5(ctx):
                  ('the labelling loop skips / filters alleles: a record with a multi-base allele is kept with its single-base alleles' if not inner_ok else
                   'the labelling of an unphased record is not guarded by "all alleles are single bases"'), key='unphased-snv-only',
                  what='fetchChromosome: an unphased record with a multi-base allele is not rejected as a whole')
-    # sample selection
-    sel = [s for s in walk_no_nested(loop) if isinstance(s, ast.If) and src(s.test) == 'self.select_samples is not None and sample not in self.select_samples' and isinstance(s.body[0], ast.Continue)]
-    ctx.emit('C18-R5', len(sel) == 1, ALLELES, sel[0] if sel else loop, 'unselected samples are skipped', key='sample-selection', nontrivial=False)
+    # sample selection: decided by `unselected-sample-inert` above (an unselected sample changes nothing), however the skip is written
 
 
 META = {
